@@ -6,16 +6,19 @@ package main
 // variables are read back.   reply:  ok|err  name=<value> ...    (value text as in evalcell)
 
 import (
+	"encoding/hex"
+	"fmt"
 	"strings"
 
 	icontext "github.com/ysugimoto/falco/v2/interpreter/context"
+	pcre "go.elara.ws/pcre"
 )
 
 func init() { register("evalprog", evalProg) }
 
 func evalProg(args string) string {
 	f := strings.Fields(args)
-	if len(f) != 3 {
+	if len(f) != 3 && len(f) != 4 {
 		return "badreq"
 	}
 	main := cellBackends
@@ -43,6 +46,27 @@ func evalProg(args string) string {
 				continue
 			}
 			out = append(out, name+"="+showVal(v))
+		}
+	}
+	// optional 4th field: <hex pattern>:<hex subject>,... - the answers of Go's PCRE (oracle for Model/ReGroup.v)
+	if len(f) == 4 {
+		for k, ps := range strings.Split(f[3], ",") {
+			ph, sh, _ := strings.Cut(ps, ":")
+			re, err := pcre.Compile(unhex(ph))
+			if err != nil {
+				out = append(out, fmt.Sprintf("re%d=e", k))
+				continue
+			}
+			m := re.FindStringSubmatch(unhex(sh))
+			if len(m) == 0 {
+				out = append(out, fmt.Sprintf("re%d=x", k))
+				continue
+			}
+			var hs []string
+			for _, g := range m {
+				hs = append(hs, hex.EncodeToString([]byte(g)))
+			}
+			out = append(out, fmt.Sprintf("re%d=%d:%s", k, len(m), strings.Join(hs, ";")))
 		}
 	}
 	return st + " " + strings.Join(out, " ")
